@@ -583,8 +583,29 @@ def r9(ctx, rep):
         by.setdefault((s_["fn"], s_["cls"], s_["step"]), set()).add(s_["l"])
     file_of = {(s_["fn"], s_["cls"], s_["step"], s_["l"]): s_["file"] for s_ in sites}
     table = load("c12_reached.json")["rows"]
+    # conditions under which a recorded site cannot be reached any more although it is still in the source
+    st = syn.fn("Resolver::fold_statements", crate="prqlc")
+    reserved = set()
+    for n in walk(st["body"]):
+        if n.get("k") == "if" and any(x.get("k") == "return" and "Err" in show(x.get("e"), maxdepth=4) for x in walk(n["t"])) and ".contains(" in show(n["c"], maxdepth=8) and "name" in show(n["c"], maxdepth=8):
+            reserved |= {x["p"] for x in walk(n["c"]) if x.get("k") == "path" and x["p"].startswith("NS_")}
+    conds = {"reserved-names-rejected": {"NS_THIS", "NS_THAT", "NS_PARAM", "NS_SELF", "NS_INFER", "NS_INFER_MODULE"} <= reserved}
+    rep.check(conds["reserved-names-rejected"], "reserved-names-rejected", f"declarations named like the resolver's own scopes (`this`, `that`, `_param`, `_self`, `_infer`, `_infer_module`) must be rejected "
+              f"in fold_statements (found a rejection for {sorted(reserved)}): `let _infer = 1` otherwise makes later lookups panic", file=st["file"], line=st["l"], fn=st["path"])
+    import guards as _g
     n_present = 0
     for row in table:
+        if row.get("unreachable_if") and conds.get(row["unreachable_if"]):
+            rep.ok(f"reached:{row['fn']}:{row['cls']}:{row['step']}#{row['nth']}", {"unreachable": row["unreachable_if"]})
+            continue
+        if row.get("safe_if_arm_guard"):
+            fn_ = [g for g in syn.fns if g["crate"] == "prqlc" and "body" in g and (g["path"].endswith(row["fn"].split("::")[-1]))]
+            want = row["safe_if_arm_guard"].replace(" ", "")
+            hit = any(arm.get("guard") is not None and want in show(arm["guard"], maxdepth=12).replace(" ", "") and row["step"].strip(".()").split("[")[0].replace("var", "args") in (show(arm["guard"], maxdepth=14) + " " + (show_stmts(arm["body"], maxdepth=14) if arm["body"].get("k") == "block" else show(arm["body"], maxdepth=14)))
+                      for g in fn_ for m_ in matches_of(g["body"]) for arm in m_["arms"])
+            if hit:
+                rep.ok(f"reached:{row['fn']}:{row['cls']}:{row['step']}#{row['nth']}", {"guarded": row["safe_if_arm_guard"]})
+                continue
         lines = sorted(by.get((row["fn"], row["cls"], row["step"]), ()))
         # the site is still there when the function still has that many sites of this class and step (a repaired site disappears from the inventory)
         still = len(lines) >= row["of"] and len(lines) >= row["nth"]
